@@ -134,7 +134,7 @@ def walk(stmts, inc):
 INC_SPELLINGS = ["{n}.mac", "./{n}.mac", "sub/../{n}.mac"]
 
 
-def render(files, inc, base=None):
+def render(files, inc, base=None, late=None):
     """-> (sources [(name, text)], fs dict or None).  base: harness link base (a `.link` the harness adds).
     Rendering choices that do not change the meaning are varied deterministically with the program: the harness `.link` stands
     at the start, or (when the program has no '. =' and sets no base itself) at the very end, or is omitted for the default base
@@ -147,7 +147,10 @@ def render(files, inc, base=None):
                   or any(s["k"] == "end" for s in files[-1]))        # text behind .end is discarded, a trailing .link too
     link_at = "start"
     if base is not None and not has_dotset:
-        link_at = ["start", "end", "start", "end", "omit"][h % 5] if base == 512 else ["start", "end"][h % 2]
+        if late is None:
+            link_at = ["start", "end", "start", "end", "omit"][h % 5] if base == 512 else ["start", "end"][h % 2]
+        elif late:
+            link_at = ["end", "omit"][h % 2] if base == 512 else "end"
     counter = {}
 
     class Names(list):
@@ -210,9 +213,23 @@ def replay(task):
     """task = (record, incfiles, opts) -> list of problems (dicts).  opts: harness_link, timeout, check_syms"""
     rec, inc, opts = task
     problems = []
+    variants = []
     for run in rec["runs"]:
-        base = run["base"] if opts.get("harness_link", True) else None
-        srcs, fs = render(rec["files"], inc, base)
+        if opts.get("harness_link", True):
+            # an accepted program is assembled with the harness `.link` in front AND with it at the very end / omitted
+            # (the base is then unknown during the whole pass): both must give the predicted result
+            places = [False, True] if (run["ok"] and rec["own"] != "err" and opts.get("both_link_places", True)) else [None]
+            for late in places:
+                variants.append((run, run["base"], late))
+        else:
+            variants.append((run, None, None))
+    done = set()
+    for run, base, late in variants:
+        srcs, fs = render(rec["files"], inc, base, late)
+        key = repr(srcs)
+        if key in done:
+            continue
+        done.add(key)
         to = 1.0 if rec.get("cyc") else opts.get("timeout", 5.0)
         r = asm(srcs, fs=fs, timeout=to, listing=opts.get("check_syms", True))
         want_ok = bool(run["ok"]) and rec["own"] != "err"
